@@ -16,7 +16,8 @@ LEVEL_TEXT = ("Held on every generated call of the run: 3 entry points x 7 metho
               "initial guesses {0, random, float64 solution, perturbed solution, bitwise-exact root} x f_tol/x_tol 1e-2..1e-12 x "
               "maxiter {default, forced small} x line search on/off x 4 parameter placements.  Every silent return is re-inserted into "
               "the user function (|f| < f_tol, |f - y| < f_tol, |grad| < f_tol, objective <= objective(y0)), located in the spy's "
-              "call history, and compared with the float64 reference; well-posed classes must be silent.")
+              "call history, and compared with the float64 reference; well-posed classes must be silent.  Every recorded evaluation argument "
+              "has the dtype and shape of the initial guess; single-precision guesses (float32, complex64) are drawn for every method.")
 LEVEL_NOTE = ("Contraction constant <= 0.6 (Jacobian cond <= 4); gd with momentum and adam are held to a coarse agreement (2e-2) because "
               "their OR-type step test can fire at a turning point of the oscillation; tolerances below 200*eps*scale are not required to be reached.")
 RULE = ("seeded sampling over entry point x method {newton, broyden1, broyden2, linearmixing, anderson_acc, gd, adam} x family x n in "
@@ -25,16 +26,37 @@ RULE = ("seeded sampling over entry point x method {newton, broyden1, broyden2, 
         "root for real and complex unknowns); non-trivial = the call returned and the spy recorded >= 3 evaluations of the user "
         "function (>= 2 iterations), or a directed case whose exact-root event (|f| == 0 in the history) was observed")
 RULE += ('; the method name is spelled in lower / upper / title / alternating case (seeded)')
+RULE += ('; group linsolver: newton with an explicit linear solver (solver_method exactsolve / bicgstab / gmres / cg, default or tight solver_kwargs)')
+RULE += ('; group scalar0d: a single unknown given as a 0-dimensional real / complex tensor, every method')
+RULE += ('; group after_raise: the monitored (maxiter-limited) call follows a call of the same solver from which an exception of the user function escaped')
+RULE += ('; group prec: every method x entry point with float32 (and complex64) initial guesses and parameters: returned dtype/shape, dtype of every '
+         'recorded evaluation argument, stopping test at single-precision tolerances')
 MIN_NONTRIVIAL = {"quick": 1500, "thorough": 18000}
 ASSUMPTIONS = [
     "families are y - h(y) with h a q-contraction, q <= 0.6 (holomorphic family: q <= 0.35 inside its invariant ball |y| <= 0.5; convex "
     "objectives: Hessian eigenvalues in [0.6, 1.4] + quartic 0.05*z^4)",
     "must-be-silent only when f_tol and x_tol >= 200*eps(dtype)*sqrt(N)*(1+|y*|)/(1-q), maxiter is left at its default (300 for broyden warm starts, "
     "3000/6000 for gd/adam); not for broyden1/2 on the holomorphic and quartic families (only locally contractive), not for gd/adam warm starts, "
-    "not with f_rtol when y0 is the rounding-level solution (f_rtol is relative to |f(y0)|)",
+    "not with f_rtol when y0 is the rounding-level solution (f_rtol is relative to |f(y0)|); an exception of broyden1/2 on these two families after an "
+    "evaluated point left the contraction region (|y| > 0.5 resp. |z| > 1.5) is a diverged run, not a violation (counter raised_after_leaving_contraction_region)",
     "random initial guesses are N(0,1) per component (holomorphic family: |y0| = 0.4, quartic objective: |y0| = 1); warm starts are the float64 "
     "reference solution and that solution + 1e-7*N(0,1) (float32: 1e-3)",
     "float32 cases request f_tol, x_tol in {1e-2, 1e-3}",
+    "group prec (precision of the initial guess): float32 guesses for all 7 methods x 3 entry points, complex64 guesses for the root-finding "
+    "methods and anderson_acc on the two complex families; parameters have the guess's precision; starts zero / N(0,1); f_tol, x_tol in "
+    "{1e-2, 1e-3, 1e-4} (must-be-silent only above the floor 200*eps32*sqrt(N)*(1+|y*|)/(1-q), same exemptions as above); gd/adam run with "
+    "f_rtol=0, x_rtol in {1e-3, 1e-4} (must be silent) or with their default relative tolerances 1e-8 (below single-precision resolution: "
+    "no silence demand); half of the cases hand xitorch a dtype-tolerant user function (parameters converted to the dtype of the argument)",
+    "group linsolver: newton with solver_method in {exactsolve, bicgstab, gmres, cg (minimize only: SPD Hessian)}, solver_kwargs default or "
+    "{rtol 1e-10, atol 1e-14}, real families, f_tol in {1e-4, 1e-6, 1e-9, 1e-12}; must-be-silent only for f_tol >= 10*atol of the inner solver "
+    "(default atol 1e-8) and not for gmres (which announces its own non-convergence); an exception is a violation in every case",
+    "group scalar0d: one unknown given as a 0-dimensional tensor (the n = 1 member of every family presented with shape ()), float64 / complex128, "
+    "every method x entry point, starts zero / N(0,1), f_tol in {1e-6, 1e-9}; same oracles (the result must be 0-dimensional)",
+    "gd/adam silence is only demanded where their relative stopping tests are attainable: the generated objectives have a non-zero minimiser and a "
+    "non-zero minimum value (b != 0, or centre c != 0 for the exact-start cases); a minimum of value 0 AT the origin makes df < f_rtol*|f| and "
+    "dx < x_rtol*|x| unreachable by construction (documented relative criteria, absolute ones default to 0) and is not generated",
+    "group prec agreement tolerance for gd without momentum: 25*x_rtol*(1+|y*|) + floor (ten times the bound (0.7/0.3)*x_rtol*|y| of a 0.7-contraction); "
+    "none for gd with momentum / adam (their OR-type step test can fire at a turning point)",
     "gd/adam are run with step sizes adapted to the known Hessian bounds (gd 0.3-0.5, adam 3e-2) and maxiter 3000/6000",
     "agreement tolerance: 100*f_tol/(1-q) for the root-finding methods and anderson_acc; 1e-6*(1+|y*|) for gd without momentum (x_rtol=1e-9); "
     "2e-2*(1+|y*|) for gd with momentum / adam with x_rtol=1e-9; none for gd/adam with their default relative tolerances",
@@ -45,11 +67,29 @@ REQUIRED_COUNTERS = {
     "quick": {"extra_alias_compared": 40, "silent_results_checked": 1000, "warned_results": 150, "must_silent_cases": 900, "history_located": 900,
               "exact_root_after_step": 40, "exact_root_at_start": 60, "complex_cases": 300, "line_search_off": 400,
               "objective_clause_checked": 250, "reference_compared": 900, "user_function_evaluations": 60000,
-              "forced_warning_path": 100, "method_gd": 50, "method_adam": 50, "method_anderson_acc": 60},
+              "forced_warning_path": 100, "method_gd": 50, "method_adam": 50, "method_anderson_acc": 60,
+              # group "prec" (single-precision guesses, every method): calls that returned, per dtype x method
+              "prec_float32_newton": 15, "prec_float32_broyden1": 15, "prec_float32_broyden2": 15, "prec_float32_linearmixing": 15,
+              "prec_float32_anderson_acc": 5, "prec_float32_gd": 12, "prec_float32_adam": 12,
+              "prec_complex64_newton": 10, "prec_complex64_broyden1": 10, "prec_complex64_broyden2": 10, "prec_complex64_linearmixing": 10,
+              "prec_complex64_anderson_acc": 5, "prec_result_dtype_checked": 200, "prec_evaluation_arguments_checked": 3000,
+              "prec_must_silent": 50, "prec_casting_user_function": 80,
+              # group "linsolver" (newton with solver_method): calls made per linear solver, must-be-silent cases that returned
+              "linsolver_exactsolve": 15, "linsolver_bicgstab": 30, "linsolver_gmres": 15, "linsolver_cg": 10, "linsolver_must_silent": 10,
+              "scalar0d_real": 40, "scalar0d_complex": 20,
+              "after_raise_exception_escaped": 25, "after_raise_then_warned": 15},
     "thorough": {"extra_alias_compared": 400, "silent_results_checked": 10000, "warned_results": 2000, "must_silent_cases": 8000, "history_located": 8000,
                  "exact_root_after_step": 400, "exact_root_at_start": 400, "complex_cases": 4000, "line_search_off": 5000,
                  "objective_clause_checked": 3000, "reference_compared": 9000, "user_function_evaluations": 800000,
-                 "forced_warning_path": 1500, "method_gd": 600, "method_adam": 600, "method_anderson_acc": 800},
+                 "forced_warning_path": 1500, "method_gd": 600, "method_adam": 600, "method_anderson_acc": 800,
+                 "prec_float32_newton": 150, "prec_float32_broyden1": 150, "prec_float32_broyden2": 150, "prec_float32_linearmixing": 150,
+                 "prec_float32_anderson_acc": 50, "prec_float32_gd": 120, "prec_float32_adam": 120,
+                 "prec_complex64_newton": 100, "prec_complex64_broyden1": 100, "prec_complex64_broyden2": 100,
+                 "prec_complex64_linearmixing": 100, "prec_complex64_anderson_acc": 50, "prec_result_dtype_checked": 2000,
+                 "prec_evaluation_arguments_checked": 30000, "prec_must_silent": 500, "prec_casting_user_function": 800,
+                 "linsolver_exactsolve": 150, "linsolver_bicgstab": 300, "linsolver_gmres": 150, "linsolver_cg": 100,
+                 "linsolver_must_silent": 100, "scalar0d_real": 300, "scalar0d_complex": 150,
+                 "after_raise_exception_escaped": 250, "after_raise_then_warned": 150},
 }
 
 RF = ["newton", "broyden1", "broyden2", "linearmixing"]
@@ -58,6 +98,8 @@ TASK_FAMILIES = {"rootfinder": ["tanh", "affine", "cplx", "holo"], "equilibrium"
                  "minimize": ["quad", "quartic"]}
 PLACEMENTS = ["explicit", "explicit_nt", "module", "editable"]
 GD_CLASSES = ["plain_tight", "momentum_tight", "default_tol"]
+PREC_DTYPES = ["float32", "complex64"]        # group "prec": single-precision initial guesses (complex64 on the complex families)
+PREC_TOLS = [1e-2, 1e-3, 1e-4]
 
 
 def cases(seed, tier):
@@ -143,6 +185,81 @@ def cases(seed, tier):
                                     "x_tol": None, "rtol": None, "maxiter": None, "ls": (k % 2 == 0) if method in RF else None,
                                     "placement": PLACEMENTS[k % 4], "gdclass": GD_CLASSES[k % 3] if method in ("gd", "adam") else None})
                         k += 1
+    # ---- precision of the initial guess: single-precision real AND complex guesses (parameters of the same precision) for EVERY method
+    # of every entry point (the main loop above draws float32 for the root-finding methods on the real families only, never for gd / adam,
+    # never complex64).  Oracles: dtype / shape of the result, dtype of every recorded evaluation argument, the stopping test with
+    # tolerances a single-precision run can reach (must-be-silent only above the attainability floor)
+    kp = 0
+    for task in tasks:
+        for method in METHODS[task]:
+            for dname in PREC_DTYPES:
+                cplx = dname == "complex64"
+                fams = [f for f in TASK_FAMILIES[task] if optfam.FAMILIES[f][1] == cplx]
+                if not fams:
+                    continue
+                gdm = method in ("gd", "adam")
+                for rep in range((24 if gdm else 10) if tier == "quick" else (240 if gdm else 100)):
+                    rng = random.Random(sub_seed(seed, "c03p", kp))
+                    d = {"group": "prec", "task": task, "seed": sub_seed(seed, "c03ps", kp), "method": method, "family": rng.choice(fams),
+                         "n": rng.choice(sizes), "batch": rng.randrange(len(optfam.BATCHES)), "dtype": dname, "q": rng.choice([0.2, 0.4, 0.6]),
+                         "y0": rng.choice(["zero", "rand", "rand"]), "f_tol": rng.choice(PREC_TOLS), "x_tol": rng.choice(PREC_TOLS),
+                         "rtol": rng.choice([None, None, "f_rtol", "x_rtol"]), "maxiter": rng.choice([None] * 5 + ["small"]),
+                         "ls": rng.choice([True, False]) if method in RF else None, "placement": rng.choice(PLACEMENTS),
+                         "spell": rng.choice(["lower"] * 5 + ["upper", "title", "mixed"]), "cast": rng.random() < 0.5}
+                    if method in ("gd", "adam"):
+                        d.update(gdclass=rng.choice(["single_xrtol", "single_xrtol", "default_tol"]), x_rtol=rng.choice([1e-3, 1e-4]),
+                                 momentum=rng.choice([True, False]), f_tol=None, x_tol=None, rtol=None)
+                    out.append(d)
+                    kp += 1
+    # ---- newton with an explicitly chosen linear solver for its steps (option solver_method / solver_kwargs): direct, and the iterative
+    # solvers of xitorch.linalg.solve whose default absolute tolerance (1e-8) is ABOVE tight f_tol requests; cg only where the Jacobian is the
+    # symmetric positive definite Hessian (minimize)
+    kl = 0
+    for task in tasks:
+        sms = ["exactsolve", "bicgstab", "bicgstab", "gmres"] + (["cg", "cg"] if task == "minimize" else [])
+        for sm in sms:
+            for rep in range(6 if tier == "quick" else 60):
+                rng = random.Random(sub_seed(seed, "c03l", kl))
+                fam = rng.choice([f for f in TASK_FAMILIES[task] if not optfam.FAMILIES[f][1]])
+                out.append({"group": "linsolver", "task": task, "seed": sub_seed(seed, "c03ls", kl), "method": "newton", "family": fam,
+                            "n": rng.choice(sizes), "batch": rng.randrange(len(optfam.BATCHES)), "dtype": "float64", "q": rng.choice([0.2, 0.4, 0.6]),
+                            "y0": rng.choice(["zero", "rand", "rand"]), "f_tol": rng.choice([1e-4, 1e-6, 1e-6, 1e-9, 1e-12]),
+                            "x_tol": rng.choice([None, None, 1e-4, 1e-9]), "rtol": None, "maxiter": None, "ls": rng.choice([True, False]),
+                            "placement": rng.choice(PLACEMENTS), "spell": "lower", "solver_method": sm,
+                            "solver_kw": rng.choice([None, None, "tight"]) if sm != "exactsolve" else None})
+                kl += 1
+    # ---- a single unknown given as a 0-dimensional tensor (shape () instead of (1,)), real and complex, every method
+    k0 = 0
+    for rep in range(1 if tier == "quick" else 8):
+        for task in tasks:
+            for method in METHODS[task]:
+                for fam in TASK_FAMILIES[task]:
+                    for mode in ("zero", "rand"):
+                        rng = random.Random(sub_seed(seed, "c030", k0))
+                        gdm = method in ("gd", "adam")
+                        out.append({"group": "scalar0d", "task": task, "seed": sub_seed(seed, "c030s", k0), "method": method, "family": fam, "n": 1,
+                                    "batch": 0, "dtype": "complex128" if optfam.FAMILIES[fam][1] else "float64", "q": rng.choice([0.2, 0.4, 0.6]),
+                                    "y0": mode, "f_tol": None if gdm else rng.choice([1e-6, 1e-9]), "x_tol": None, "rtol": None, "maxiter": None,
+                                    "ls": rng.choice([True, False]) if method in RF else None, "placement": rng.choice(PLACEMENTS),
+                                    "spell": "lower", "gdclass": rng.choice(GD_CLASSES) if gdm else None})
+                        k0 += 1
+    # ---- history: an exception of the USER's function escaped from an earlier call of the same solver (the function raises at its k-th
+    # evaluation, e.g. an iterate outside its domain); the following call is stopped early by maxiter and must still warn or meet the test
+    ka = 0
+    for rep in range(2 if tier == "quick" else 20):
+        for task in tasks:
+            for method in METHODS[task]:
+                rng = random.Random(sub_seed(seed, "c03a", ka))
+                gdm = method in ("gd", "adam")
+                out.append({"group": "after_raise", "task": task, "seed": sub_seed(seed, "c03as", ka), "method": method,
+                            "family": rng.choice(TASK_FAMILIES[task]), "n": rng.choice([2, 3, 5, 8]), "batch": rng.randrange(len(optfam.BATCHES)),
+                            "dtype": "float64", "q": rng.choice([0.4, 0.6]), "y0": "rand", "f_tol": None if gdm else rng.choice([1e-9, 1e-12]),
+                            "x_tol": None, "rtol": None, "maxiter": "small", "ls": rng.choice([True, False]) if method in RF else None,
+                            "placement": rng.choice(PLACEMENTS), "spell": "lower", "gdclass": rng.choice(GD_CLASSES) if gdm else None,
+                            "raise_at": rng.choice([1, 2, 3])})
+                if optfam.FAMILIES[out[-1]["family"]][1]:
+                    out[-1]["dtype"] = "complex128"
+                ka += 1
     from vf import c03_extra
     out.extend(c03_extra.cases(seed, tier))
     return out
@@ -162,6 +279,100 @@ def _spell(name, how):
     return name
 
 
+class _UserFunctionError(Exception):
+    pass
+
+
+def _call_with_failing_function(obs, fn, prob, y0, method, opts, raise_at):
+    """the history before the monitored call: the same solver is called with a user function that raises at its `raise_at`-th evaluation;
+    the exception must come out (that is all that is asked of this call)"""
+    pres = optfam.present(prob, "explicit", spy=False)
+    calls = [0]
+
+    def failing(y, *params):
+        calls[0] += 1
+        if calls[0] >= raise_at:
+            raise _UserFunctionError("the user's function cannot be evaluated at this point")
+        return pres.fcn(y, *params)
+    o2 = dict(opts)
+    o2.pop("maxiter", None)
+    try:
+        with WarnLog():
+            fn(failing, y0.clone(), params=pres.params, method=method, **o2)
+        obs.count("after_raise_no_exception")
+    except _UserFunctionError:
+        obs.count("after_raise_exception_escaped")
+    except Exception as e:      # the solver turned the user's exception into another one: recorded, not judged here
+        obs.count("after_raise_other_exception")
+        obs.note(pre_call_exception="%s: %s" % (type(e).__name__, str(e)[:120]))
+
+
+def _left_region(prob, log):
+    """did a recorded evaluation point lie outside the region where the family is a contraction (holo: |y| <= 0.5; quartic: |z| <= 1.5)?"""
+    for ya, _, _, _ in log:
+        if prob.family == "holo":
+            r, bound = _norm(ya), 0.5
+        else:
+            r, bound = _norm(ya - prob.theta["c"].to(ya.dtype) if "c" in prob.theta else ya), 1.5
+        if not r <= bound:
+            return True
+    return False
+
+
+class _ScalarProblem:
+    """a one-unknown problem whose unknown is a 0-dimensional tensor: the same mathematics, y of shape () instead of (1,)"""
+
+    def __init__(self, prob):
+        if prob.yshape != (1,):
+            raise HarnessBug("scalar presentation needs n = 1 without batch")
+        self._p = prob
+        self.yshape = ()
+
+    def __getattr__(self, name):
+        return getattr(self._p, name)
+
+    def user_value(self, y, th=None, ex=None):
+        out = self._p.user_value(y.reshape(1), th, ex)
+        return out if self._p.task == "minimize" else out.reshape(())
+
+    def objective(self, y, th, ex=None):
+        return self._p.objective(y.reshape(1), th, ex)
+
+    def stop_residual(self, y, th=None, ex=None):
+        return self._p.stop_residual(y.reshape(1), th, ex).reshape(())
+
+    def reference(self):
+        y, rn = self._p.reference()
+        return y.reshape(()), rn
+
+
+class _CastingProblem:
+    """the same problem, with a user function that converts its tensor parameters to the dtype of its argument"""
+
+    def __init__(self, prob):
+        self._p = prob
+
+    def __getattr__(self, name):
+        return getattr(self._p, name)
+
+    def user_value(self, y, th=None, ex=None):
+        th = self._p.theta if th is None else th
+        th = {k: (v.to(y.dtype) if v.dtype != y.dtype and v.is_complex() == y.is_complex() else v) for k, v in th.items()}
+        return self._p.user_value(y, th, ex)
+
+
+def _check_arg_dtypes(obs, log, y0, cfg, ptag, prec):
+    """history clause of the dtype statement: every point the user's function was evaluated at has the dtype (and shape) of the guess"""
+    bad = [k for k, (ya, _, _, _) in enumerate(log) if ya.dtype != y0.dtype or tuple(ya.shape) != tuple(y0.shape)]
+    obs.count("evaluation_arguments_dtype_checked", len(log))
+    if prec:
+        obs.count("prec_evaluation_arguments_checked", len(log))
+    obs.check(not bad, "argdtype:%s%s" % (cfg, ptag),
+              "the user's function was evaluated at %d of %d points whose dtype/shape differ from the initial guess (%s %s); first: #%d %s %s"
+              % (len(bad), len(log), y0.dtype, tuple(y0.shape), bad[0] if bad else -1,
+                 log[bad[0]][0].dtype if bad else None, tuple(log[bad[0]][0].shape) if bad else None))
+
+
 def run_case(desc):
     if desc.get("group") == "alias":
         from vf import c03_extra
@@ -174,13 +385,27 @@ def run_case(desc):
     rng = random.Random(desc["seed"])
     tgen = torch.Generator().manual_seed(desc["seed"])
     dt = gen.rdtype(desc["dtype"])
-    rdt = torch.float32 if dt == torch.float32 else torch.float64
+    rdt = torch.float32 if dt in (torch.float32, torch.complex64) else torch.float64
+    prec = desc["group"] == "prec"
+    ptag = (":" + desc["dtype"]) if prec else ""       # mechanism keys of the precision group name the guess's dtype
+    linsolver = desc["group"] == "linsolver"
+    if linsolver:                                      # ... those of the linear-solver group the solver of newton's steps
+        ptag = ":%s%s" % (desc["solver_method"], ":tightkw" if desc["solver_kw"] else "")
     eps = torch.finfo(rdt).eps
     batch = optfam.BATCHES[desc["batch"]]
     special = desc.get("special")
     prob = optfam.make_problem(family, task, desc["n"], batch, dt, desc["q"], tgen, special=special)
+    if desc["group"] == "scalar0d":
+        prob = _ScalarProblem(prob)
+        ptag = ":0dim"
+        obs.count("scalar0d_%s" % ("complex" if dt.is_complex else "real"))
     q = optfam.contraction_bound(prob)
-    pres = optfam.present(prob, desc["placement"])
+    # a dtype-tolerant user function (it converts its parameters to the dtype of the point it is given, as `A.to(y) @ y` would): on a tree
+    # whose iterates keep the guess's dtype the conversion is the identity; where they do not, the call does not die of a dtype mismatch
+    # inside the user's function and the dtype oracles decide
+    pres = optfam.present(_CastingProblem(prob) if desc.get("cast") else prob, desc["placement"])
+    if desc.get("cast"):
+        obs.count("prec_casting_user_function")
     N = 1
     for s in prob.yshape:
         N *= s
@@ -234,31 +459,55 @@ def run_case(desc):
             opts["maxiter"] = rng.choice([1, 2, 3, 4])
         elif desc["maxiter"] == "ample":
             opts["maxiter"] = 300
+        if linsolver:
+            opts["solver_method"] = desc["solver_method"]
+            obs.count("linsolver_%s" % desc["solver_method"])
+            if desc["solver_kw"] == "tight":
+                opts["solver_kwargs"] = {"rtol": 1e-10, "atol": 1e-14}
     else:
         if method == "gd":
             if gdclass == "plain_tight":
                 opts.update(step=0.5, gamma=0.0, f_rtol=0.0, x_rtol=1e-9, maxiter=3000)
             elif gdclass == "momentum_tight":
                 opts.update(step=0.3, f_rtol=0.0, x_rtol=1e-9, maxiter=3000)
+            elif gdclass == "single_xrtol":
+                # single precision: a relative step tolerance the iteration can reach (>= 800*eps32); OR-type test, f_rtol switched off
+                opts.update(step=0.5 if not desc["momentum"] else 0.3, f_rtol=0.0, x_rtol=desc["x_rtol"], maxiter=3000)
+                if not desc["momentum"]:
+                    opts["gamma"] = 0.0
             else:
                 opts.update(step=0.3, maxiter=3000)
         else:
             if gdclass == "default_tol":
                 opts.update(step=3e-2, maxiter=6000)
+            elif gdclass == "single_xrtol":
+                opts.update(step=3e-2, f_rtol=0.0, x_rtol=desc["x_rtol"], maxiter=6000)
             else:
                 opts.update(step=3e-2, f_rtol=0.0, x_rtol=1e-9, maxiter=6000)
         if desc["maxiter"] == "small":
             opts["maxiter"] = rng.choice([1, 2, 3, 5])
     cfg = "%s:%s" % (task, method)
     lsname = {True: "ls", False: "nols", None: "-"}[desc["ls"]]
+    if desc["group"] == "after_raise":
+        ptag = ":after_raise"
+        _call_with_failing_function(obs, fn, prob, y0, method, opts, desc["raise_at"])
     # ---- the monitored call
     y0_in = y0.clone()
     with WarnLog() as wl:
         try:
             y = fn(pres.fcn, y0_in, params=pres.params, method=_spell(method, desc.get("spell")), **opts)
         except Exception as e:
-            obs.exc_violation("call:%s:%s:%s" % (cfg, family, "y0root" if y0_is_root else mode), e, dtype=str(dt),
+            if family in ("holo", "quartic") and method in ("broyden1", "broyden2") and _left_region(prob, pres.log):
+                # these two families are contractions only near the solution and broyden's long first steps can leave that region (the class
+                # exempt from must-be-silent, see ASSUMPTIONS): what the solver does with a diverging iteration (here: it raises once the
+                # iterates overflow) is outside the statement
+                obs.count("raised_after_leaving_contraction_region")
+                obs.note(raised="%s: %s" % (type(e).__name__, str(e)[:120]))
+                obs.nontrivial = len(pres.log) >= 3
+                return obs.result()
+            obs.exc_violation("call:%s:%s:%s%s" % (cfg, family, "y0root" if y0_is_root else mode, ptag), e, dtype=str(dt),
                               special=special, n=desc["n"], batch=list(batch))
+            _check_arg_dtypes(obs, pres.log, y0, cfg, ptag, prec)
             obs.nontrivial = True
             obs.count("raised")
             return obs.result()
@@ -276,9 +525,13 @@ def run_case(desc):
     if not all((not ge) for (_, _, ge, _) in log) and task != "minimize":
         obs.count("evaluations_with_grad_enabled")
     # ---- shape / dtype (always, warned or not)
-    obs.check(tuple(y.shape) == tuple(y0.shape), "shape:%s" % cfg, "returned shape %s, y0 has %s" % (tuple(y.shape), tuple(y0.shape)),
+    obs.check(tuple(y.shape) == tuple(y0.shape), "shape:%s%s" % (cfg, ptag), "returned shape %s, y0 has %s" % (tuple(y.shape), tuple(y0.shape)),
               warned=warned)
-    obs.check(y.dtype == y0.dtype, "dtype:%s" % cfg, "returned dtype %s, y0 has %s" % (y.dtype, y0.dtype), warned=warned)
+    obs.check(y.dtype == y0.dtype, "dtype:%s%s" % (cfg, ptag), "returned dtype %s, y0 has %s" % (y.dtype, y0.dtype), warned=warned)
+    _check_arg_dtypes(obs, log, y0, cfg, ptag, prec)
+    if prec:
+        obs.count("prec_result_dtype_checked")
+        obs.count("prec_%s_%s" % (desc["dtype"], method))
     obs.check(torch.equal(y0_in, y0), "y0_modified:%s" % cfg, "the initial guess tensor was modified in place")
     if tuple(y.shape) != tuple(y0.shape) or y.dtype != y0.dtype:
         obs.nontrivial = True
@@ -311,7 +564,7 @@ def run_case(desc):
         obs.count("silent_results_checked")
         if not gd:
             # the stopping test on the RETURNED tensor (deterministic re-evaluation: no numerical slack beyond 1e-9 relative)
-            obs.check(rnorm < f_tol * (1 + 1e-9), "residual:%s:%s" % (cfg, lsname),
+            obs.check(rnorm < f_tol * (1 + 1e-9), "residual:%s:%s%s" % (cfg, lsname, ptag),
                       "silent return but the stopping quantity at the returned tensor is %.3e >= f_tol %.1e" % (rnorm, f_tol),
                       family=family, y0=mode, nev=nev, dtype=str(dt), special=special)
             # ... and in the history: the returned tensor is one of the evaluated points and the value seen there met the test
@@ -339,7 +592,7 @@ def run_case(desc):
                 slack += f_tol ** 2 / (1 - q)
             obs.count("objective_clause_checked")
             obs.note(obj_ratio=(F1 - F0) / slack)
-            obs.check(F1 <= F0 + slack, "objective:%s:%s" % (cfg, "y0_at_solution" if mode in ("ref", "near", "exactroot") else "y0_far"),
+            obs.check(F1 <= F0 + slack, "objective:%s:%s%s" % (cfg, "y0_at_solution" if mode in ("ref", "near", "exactroot") else "y0_far", ptag),
                       "silent return with objective %.12e > objective at the initial guess %.12e (excess %.3e, slack %.1e)"
                       % (F1, F0, F1 - F0, slack), family=family, y0=mode, gdclass=gdclass, nev=nev)
         # ---- all methods return the same point: distance to the independent float64 reference
@@ -350,6 +603,10 @@ def run_case(desc):
             etol = 1e-6 * scale
         elif gdclass in ("momentum_tight", "plain_tight"):
             etol = 2e-2 * scale
+        elif method == "gd" and gdclass == "single_xrtol" and not desc["momentum"]:
+            # plain gradient descent with step 0.5 on Hessian eigenvalues in [0.6, 1.63] contracts by <= 0.7 per step: a step shorter than
+            # x_rtol*|x| leaves an error <= (0.7/0.3)*x_rtol*|x|; ten times that plus the single-precision floor
+            etol = 25 * desc["x_rtol"] * scale + 200 * eps * math.sqrt(N) * scale / (1 - q)
         else:
             etol = None
         if family == "holo" and _norm(yd) > 0.5:
@@ -360,7 +617,7 @@ def run_case(desc):
         if etol is not None:
             obs.count("reference_compared")
             obs.note(ref_ratio=err / etol)
-            obs.check(err <= etol, "reference:%s" % cfg, "silent return differs from the float64 reference by %.3e > %.3e" % (err, etol),
+            obs.check(err <= etol, "reference:%s%s" % (cfg, ptag), "silent return differs from the float64 reference by %.3e > %.3e" % (err, etol),
                       family=family, y0=mode, gdclass=gdclass, nev=nev, resid=rnorm)
     # ---- must-be-silent classes
     floor = 200 * eps * math.sqrt(N) * scale / (1 - q)
@@ -373,17 +630,30 @@ def run_case(desc):
             must = False
     else:
         must = must and mode != "near"
+        if prec and gdclass == "default_tol":
+            must = False     # the default relative tolerances 1e-8 are below single-precision resolution (only met when f or x stagnates bitwise)
     if mode == "ref" and desc["rtol"] == "f_rtol":
         must = False         # f_rtol is relative to |f(y0)|, which is at rounding level here
+    if linsolver and desc["solver_method"] != "exactsolve":
+        # the inner solver stops at |J dx + f| <= atol + rtol*|f| (defaults 1e-8, 1e-6): newton cannot push |f| below ~atol, so silence is
+        # only demanded for f_tol >= 10*atol; gmres announces its own non-convergence on general matrices (its warning is truthful)
+        inner_atol = 1e-14 if desc["solver_kw"] == "tight" else 1e-8
+        must = must and f_tol >= 10 * inner_atol and desc["solver_method"] != "gmres"
+        if must:
+            obs.count("linsolver_must_silent")
     if mode == "far":
         must = False         # no convergence demand from a start 1e4..1e8 away; only "silent => the returned point meets the test"
         obs.count("far_start_cases")
     if must:
         obs.count("must_silent_cases")
-        obs.check(not warned, "not_silent:%s:%s:%s" % (cfg, family, "y0root" if y0_is_root else mode),
+        if prec:
+            obs.count("prec_must_silent")
+        obs.check(not warned, "not_silent:%s:%s:%s%s" % (cfg, family, "y0root" if y0_is_root else mode, ptag),
                   "contraction (q=%.2f) with attainable tolerances but the call warned: %s" % (q, wl.convergence[:1]),
                   dtype=str(dt), lsname=lsname, n=desc["n"], f_tol=f_tol, x_tol=x_tol, gdclass=gdclass, nev=nev)
     if desc["maxiter"] == "small" and warned:
         obs.count("forced_warning_path")
+        if desc["group"] == "after_raise":
+            obs.count("after_raise_then_warned")
     obs.nontrivial = nev >= 3 or (desc["group"].startswith("directed") and exact_zero_events > 0)
     return obs.result()
